@@ -307,7 +307,7 @@ func (r *rewriter) rewriteForRanges(c *astutil.Cursor, pkg loader.Pkg) bool {
 //		$body
 //	}
 func (r *rewriter) rewriteForRange(pkg loader.Pkg, fr *ast.RangeStmt) *ast.ForStmt {
-	isValid := fr.Key != nil && fr.Value == nil
+	isValid := fr.Value == nil
 	r.assert(pkg, isValid, fr, "invalid for range")
 
 	// iter := X.Ident(cstIterVar)
@@ -317,10 +317,13 @@ func (r *rewriter) rewriteForRange(pkg loader.Pkg, fr *ast.RangeStmt) *ast.ForSt
 
 	init := X.Define(iter, fr.X)
 	cond := X.Call(next)
-	body := X.Block1(
-		X.Assign(fr.Tok, fr.Key, X.Call(current)),
-		fr.Body.List...,
-	)
+	body := X.Block(fr.Body.List...)
+	if fr.Key != nil { // for range $X { } has no loop var
+		body = X.Block1(
+			X.Assign(fr.Tok, fr.Key, X.Call(current)),
+			fr.Body.List...,
+		)
+	}
 	return X.ForStmt(init, cond, nil, body)
 }
 
